@@ -128,6 +128,7 @@ func main() {
 		}
 		b, _ := json.MarshalIndent(p.declaredTypes(), "", " ")
 		fmt.Println(string(b))
+		cleanScratch()
 		return
 	}
 	if *dumpFields {
@@ -159,6 +160,7 @@ func main() {
 		}
 		b, _ := json.MarshalIndent(out, "", " ")
 		fmt.Println(string(b))
+		cleanScratch()
 		return
 	}
 	if *dumpFuncs {
@@ -168,6 +170,7 @@ func main() {
 		}
 		b, _ := json.MarshalIndent(p.declaredFuncs(), "", " ")
 		fmt.Println(string(b))
+		cleanScratch()
 		return
 	}
 	if *dumpParams {
@@ -187,6 +190,7 @@ func main() {
 		}
 		b, _ := json.MarshalIndent(out, "", " ")
 		fmt.Println(string(b))
+		cleanScratch()
 		return
 	}
 	loadDur := time.Since(loadStart)
@@ -197,6 +201,7 @@ func main() {
 			exit = 1
 		}
 	}
+	cleanScratch()
 	os.Exit(exit)
 }
 
@@ -219,6 +224,12 @@ func runOne(pd *propDef, p *Prog, loadErr error, loadDur time.Duration, tier, ve
 		rep.P = p
 		if len(p.Forwarders) > 0 {
 			rep.Note("loader collapsed %d pure forwarder(s) onto the body they were outlined into: %s", len(p.Forwarders), strings.Join(p.Forwarders, "; "))
+		}
+		if len(p.Inlined) > 0 {
+			rep.Note("loader analysed a copy of the tree in which the calls of helpers that are new since the reference tree are inlined (positions refer to that copy): %s", strings.Join(p.Inlined, "; "))
+			if p.Threaded > 0 {
+				rep.Note("%d result merges of inlined helpers were split into their nil and non-nil paths", p.Threaded)
+			}
 		}
 		if len(p.Renamed) > 0 {
 			rep.Note("loader recognised %d renamed helper(s) by package, receiver and signature: %s", len(p.Renamed), strings.Join(p.Renamed, "; "))
